@@ -86,6 +86,30 @@ func main() {
 			}()
 			d.run(cx, r)
 		}()
+		if *tier == "thorough" && os.Getenv("IRISLINT_NO_VARIANTS") == "" {
+			vr := runVariants(*repo, *verif, id)
+			app, good := 0, 0
+			var missed []string
+			for _, v := range vr {
+				if v.Applied {
+					app++
+					if v.Good {
+						good++
+					} else {
+						missed = append(missed, v.ID)
+					}
+				}
+			}
+			r.Extra["variants"] = vr
+			r.Extra["variants_total"] = len(vr)
+			r.Extra["variants_applicable"] = app
+			r.Extra["variants_as_expected"] = good
+			fmt.Printf("thorough: %d seeded variants of %s applied to scratch copies, %d behaved as expected", app, id, good)
+			if len(missed) > 0 {
+				fmt.Printf(" (NOT as expected: %s)", strings.Join(missed, ", "))
+			}
+			fmt.Println()
+		}
 		np, nf := 0, 0
 		if cx.P != nil {
 			np, nf = len(cx.P.Pkgs), len(cx.P.AllFuncs)
